@@ -22,7 +22,9 @@ Choices:
  * `.ctl (.jobEnd f fail)` is a step of the control flow only.  The exit of the child was noticed by an earlier
    `childExit`; that order is NOT enforced (an over-approximation: the theorems hold without it).
  * `.ctl (.fin ok)` ("`run` returned") is followed by `do_force_return_tokens` in every caller (explicitly, or from
-   `Drop` when the result is an error): the product drives `TokLoop`'s `.exit` there, with its two assertions.
+   `Drop` when the result is an error): the product drives `TokLoop`'s `.exit` there, with its two assertions — or
+   `.exitTop` when the process is the top of its redo tree under a foreign (make-style) jobserver (`PSt.treeTop`, a
+   constant of the process: no step changes it; the default `false` is every other process).
  * `childExit`, `childExitEat`, `tokenRead`, `cheat` are steps of the event loop while the control flow is blocked in an await; they
    are accepted at ANY program counter (over-approximation).  For them `.disabled` only means "this cannot happen
    now": the event is rejected, the outcome is not `stuck`.
@@ -41,6 +43,7 @@ inductive PEv
 structure PSt where
   ctl : RunLoop.St := {}
   tok : TokLoop.LS := {}
+  treeTop : Bool := false  -- inherited jobserver, own cheat pipe: the top of a redo tree under make (never changes)
   deriving Repr
 
 inductive PRes
@@ -53,7 +56,7 @@ inductive PRes
 /-- A counter step the control flow drives: it has to be possible. -/
 def driven (s : PSt) (ctl' : RunLoop.St) (e : TokLoop.LEv) : PRes :=
   match TokLoop.lstep true s.tok e with
-  | .ok t => .ok { ctl := ctl', tok := t }
+  | .ok t => .ok { s with ctl := ctl', tok := t }
   | .disabled => .stuck
   | .panic => .panic
 
@@ -72,12 +75,13 @@ def pstepG (contract : Bool) (c : RunLoop.Cfg) (s : PSt) : PEv → PRes
       match e with
       | .tok =>
         if contract && s.tok.my == 0 then .reject "ensure_token_or_cheat returned although the process holds no token"
-        else .ok { ctl := ctl', tok := s.tok }
+        else .ok { s with ctl := ctl' }
       | .forked _ => driven s ctl' .start
       | .releaseMine => driven s ctl' .releaseMine
       | .waitAll => driven s ctl' .waitAll
-      | .fin _ => driven s ctl' .exit          -- `run` has returned: `do_force_return_tokens` (explicitly or from `Drop`)
-      | _ => .ok { ctl := ctl', tok := s.tok }
+      -- `run` has returned: `do_force_return_tokens` (explicitly or from `Drop`)
+      | .fin _ => driven s ctl' (if s.treeTop then .exitTop else .exit)
+      | _ => .ok { s with ctl := ctl' }
   | .childExit => env s .childExit
   | .childExitEat => env s .childExitEat
   | .tokenRead => env s .tokenRead
